@@ -116,7 +116,46 @@ class Ctx:
         return self._add(HOLDS, f, node, construct, expected, found, **kw)
 
     def violated(self, f: Optional[FuncInfo], node: Optional[ast.AST], construct: str, expected: str, found: str, **kw: Any) -> Instance:
+        gone = self._vanished_names(expected + " " + construct)
+        if gone:
+            # the rule states its expectation in terms of a function or field that this tree does not have (renamed,
+            # removed): it can no longer tell the expected construct from another one
+            return self._add(UNREC, f, node, construct, f"the rule names {', '.join(gone)}, which does not exist in this tree (renamed or removed): the expectation `{expected[:120]}` cannot be matched against the code", found, **kw)
         return self._add(VIOLATED, f, node, construct, expected, found, **kw)
+
+    def _vanished_names(self, text: str) -> List[str]:
+        import re as _re
+
+        cache = getattr(self, "_known_names", None)
+        if cache is None:
+            p = self.program
+            known = set()
+            for fn in p.all_functions():
+                known.add(fn.name)
+            for c, tab in self.ctab.attrs.items():
+                known |= set(tab)
+            for ci in p.classes.values():
+                known |= set(ci.methods)
+                known |= set(getattr(ci, "class_annotations", {}) or {})
+            for mi in p.modules.values():
+                for node in mi.tree.body:
+                    if isinstance(node, (ast.Assign, ast.AnnAssign)):
+                        for t in (node.targets if isinstance(node, ast.Assign) else [node.target]):
+                            if isinstance(t, ast.Name):
+                                known.add(t.id)
+            cache = self._known_names = known
+        gone = []
+        for m in _re.finditer(r"\b([A-Z][A-Za-z0-9]+)\.([a-z_][A-Za-z_0-9]*)\b", text):
+            cls_, meth = m.group(1), m.group(2)
+            if cls_ in self.program.classes and meth not in cache and f"{cls_}.{meth}" not in gone:
+                gone.append(f"{cls_}.{meth}")
+        for m in _re.finditer(r"(?<![A-Za-z0-9_])(_[a-z][a-z_0-9]{2,})\b", text):
+            nm = m.group(1)
+            if nm.startswith("__"):
+                continue
+            if nm not in cache and not any(g.endswith("." + nm) for g in gone) and nm not in gone:
+                gone.append(nm)
+        return gone
 
     def unrec(self, f: Optional[FuncInfo], node: Optional[ast.AST], construct: str, why: str, found: Optional[str] = None, **kw: Any) -> Instance:
         return self._add(UNREC, f, node, construct, why if found is not None else "", found if found is not None else why, **kw)
